@@ -50,7 +50,9 @@ histories = st.fixed_dictionaries({
     "ticks": st.lists(tick, min_size=40, max_size=160),
     "steady": st.sampled_from([True, True, True, False]),         # one small message per tick in both directions (keeps both counters moving)
     "idle": st.integers(0, 80),
-    "end": st.sampled_from(["none", "client-disconnect", "server-disconnect"]),
+    "end": st.sampled_from(["none", "client-disconnect", "server-disconnect", "client-disconnect-keep-updating"]),
+    "early": st.lists(st.tuples(st.sampled_from([0, 3, 14, 15, 40, 2000]), st.sampled_from(scen.RETRIES)).map(list), max_size=2),   # send() calls between connect() and the connect callback
+    "hs_delay": st.sampled_from([0.001, 0.03, 0.2]),
 })
 
 
@@ -102,6 +104,10 @@ def judge(ctx, w, sessions, scan_ids=True, sample_every=1):
         else:
             p = W.parse_datagram(em.data, None)
             stats["crc"] += 1
+            if p is not None and p.form == "crc" and h.type in (W.T_CLIENT_HELLO, W.T_SERVER_HELLO) and (
+                    p.count != 1 or not p.ok or any(t != h.type for _, t, _ in p.msgs)):
+                ctx.violation("clear-hello-carries-other-messages", "clear %s datagram #%d carries %d message(s) of types %r" % (
+                    W.TYPE_NAMES[h.type], em.i, p.count, [t for _, t, _ in (p.msgs or [])]))
             if p is None or p.form != "crc" or h.type not in (W.T_CLIENT_HELLO, W.T_SERVER_HELLO):
                 ctx.violation("clear-datagram-not-a-hello", "datagram #%d type %s emitted in clear (form %r, endpoint key %s)" % (
                     em.i, W.TYPE_NAMES[h.type], p and p.form, "set" if em.key else "unset"))
@@ -134,7 +140,17 @@ def count_wraps(w):
 def hist_body(ctx, c):
     link = scen.Link(c["link"])
     with W.World(seed=c["seed"], flavour=c["flavour"], mtu=c["mtu"]) as w:
-        ch = w.connect_client(dt=0.017)
+        ch = w.add_client()
+        w.net.default_delay = c.get("hs_delay", 0.001)
+        ch.connect()
+        for k, (n_e, retry_e) in enumerate(c.get("early", ())):
+            # an application that sends before the handshake finished (whatever the library does with it, nothing may leak)
+            ch.send(W.payload_for(700000 + k, n_e), retry=retry_e, callback=False)
+            w.step(0.017)
+        if not w.run(3.0, 0.017, until=lambda: ch.connected() and ch.laddr in w.ctxt.connections):
+            judge(ctx, w, {ch.laddr: 1})        # whatever went wrong, judge what reached the wire first
+            raise W.WorldError("honest handshake did not complete")
+        w.net.default_delay = 0.001
         sconn = w.server_conn(ch.laddr)
         # one idle second first: the low sequence numbers used by the handshake then carry an older send time than the
         # same numbers after the (positioned) wrap, exactly as after a genuine 65535-datagram wrap
@@ -164,6 +180,12 @@ def hist_body(ctx, c):
         if c["end"] == "client-disconnect" and ch.connected():
             W.client_disconnect_and_wait(w, ch)
             w.run(0.2)
+        elif c["end"] == "client-disconnect-keep-updating" and ch.connected():
+            # disconnect() while something is still in flight, and an owner that keeps pumping update() afterwards
+            ch.send(W.payload_for(800001, 40), retry=1, callback=False)
+            w.step(0.017)
+            ch.udp.disconnect()
+            w.run(0.6, 0.017)
         elif c["end"] == "server-disconnect" and w.server_conn(ch.laddr) is not None:
             conn = w.server_conn(ch.laddr)
             w.on_server_thread(lambda: conn.disconnect())
